@@ -12,6 +12,7 @@ from ..gens import vdom
 from ..bridge import parse_domain, operator
 from ..permsched import installed, explore, Sched
 from ..runner import CaseResult, digest
+from ..refsem import RefState
 
 ID = "C02"
 RULE = ("every precondition instance of the bounded grammar (DESIGN §3: and/or/forall shapes over a 10 (quick) / 22 "
@@ -106,6 +107,29 @@ def check_case(case):
                     if judge(got, s_val, p_val, args, st, f"objects declared {perm}"):
                         break
                 if r.fails:
+                    break
+            if r.fails:
+                continue
+        # pass 1d: a call on domain constants only, asked in a problem that declares NO object (its object table is empty,
+        # not missing): quantifiers range over the constants with their declared types, whatever facts mention them
+        if "forall" in case["pre"] and all(a in pg.S.constants for a in args):
+            from ..bridge import make_state
+            only = pg.S.all_objects({})
+            done = set()
+            for st, _, _ in judged:
+                st2 = RefState([a for a in st.atoms if all(x in only for x in a[1:])],
+                               {k: v for k, v in st.fluents.items() if all(x in only for x in k[1:])})
+                if st2.key() in done:
+                    continue
+                done.add(st2.key())
+                want2 = ref_applicable(pg.S, "a", args, st2, only)
+                if want2 in (UNDEF, ILL):
+                    continue
+                ls2, pr2 = make_state(pg.D, pg.S.name, {}, st2, constants=pg.S.constants)
+                got = guard(lambda: operator(pg.D, "a", args, pr2.objects).is_applicable(ls2))
+                r.count("transitions")
+                r.count("constants-only-table")
+                if judge(got, want2, None, args, st2, "a problem that declares no objects (empty object table)"):
                     break
             if r.fails:
                 continue
